@@ -60,8 +60,8 @@ impl Mem for HeapMem {
     }
 
     fn expand(&mut self, additional: usize){
-        let requested_size = self.size() + additional;
-        let new_size = cmp::max(self.size() * 2, requested_size);
+        let requested_size = self.size().checked_add(additional).expect("capacity overflow");
+        let new_size = cmp::max(self.size().saturating_mul(2), requested_size);
         self.resize(new_size);
     }
 }
